@@ -130,7 +130,7 @@ def _gen_filter(name):
 
 
 for _name in ("cn", "ci", "sem", "ampdel"):
-    contract("cnvlib/segfilters.py::" + _name, params=dict(segarr=ObjT("CopyNumArray")), bounded=True,
+    contract("cnvlib/segfilters.py::" + _name + "#rt", params=dict(segarr=ObjT("CopyNumArray")), bounded=True,
              gen=_gen_filter(_name), props=("C14",), checks=[("maximal_runs_merged_and_conserved", _check_filter(_name))])
 
 
@@ -188,3 +188,45 @@ contract("prop::C14.do_call_filter_order", params=dict(cnarr=ObjT("CopyNumArray"
          gen=_gen_call_filters, call=_call_with_filters, props=("C14", "C10"),
          modifies=(), checks=[("ci_sem_first_then_given_order", _chk_call_order)],
          notes="also a frame check: the caller's filters list and cnarr must be unchanged (C10)")
+
+
+# ----------------------------------------------------------------------------- deductive: the level each filter hands to the run merger
+from .c_call import CHROM, GENE      # noqa: E402
+
+opaque_fun("SQUASH")
+
+_SEGT = ObjT("CopyNumArray", data=TabT(index="range", chromosome=CHROM, start=Int, end=Int, gene=GENE, log2=Real, probes=Int,
+                                       weight=Real, ci_lo=Real, ci_hi=Real, sem=Real, cn=Int), meta=DictT())
+
+contract("cnvlib/segfilters.py::squash_by_groups", params=dict(cnarr=_SEGT, levels=SeriesT(NReal), by_arm=Bool),
+         returns=FunResT("SQUASH", "levels"), trusted=True, requires=[], ensures=[], props=(), domain="skip",
+         notes="at call sites squash_by_groups(segarr, levels) is the opaque function SQUASH of the level vector (for the "
+               "same segment table); what it does with the levels is the bounded contracts' business")
+
+contract(
+    "cnvlib/segfilters.py::ci",
+    params=dict(segarr=_SEGT), returns=FunResT("SQUASH", "segarr"), requires=[],
+    ensures=[("levels_from_ci", "result == SQUASH(Vec(len(segarr.data), lambda k: "
+                                "ite(segarr.data.ci_hi[k] < 0, -1, ite(segarr.data.ci_lo[k] > 0, 1, 0))))")],
+    props=("C14",), domain="skip",
+    canaries=[("lo_ge", 'segarr["ci_lo"].values > 0', 'segarr["ci_lo"].values >= 0'),
+              ("hi_uses_lo", 'levels[segarr["ci_hi"].values < 0] = -1', 'levels[segarr["ci_lo"].values < 0] = -1')],
+)
+
+contract(
+    "cnvlib/segfilters.py::sem",
+    params=dict(segarr=_SEGT, zscore=Real), returns=FunResT("SQUASH", "segarr"), requires=[],
+    ensures=[("levels_from_sem", "result == SQUASH(Vec(len(segarr.data), lambda k: "
+                                 "ite(segarr.data.log2[k] + segarr.data.sem[k] * zscore < 0, -1, "
+                                 "ite(segarr.data.log2[k] - segarr.data.sem[k] * zscore > 0, 1, 0))))")],
+    props=("C14",), domain="skip",
+    canaries=[("margin_sign", 'levels[segarr["log2"] - margin > 0] = 1', 'levels[segarr["log2"] + margin > 0] = 1')],
+)
+
+contract(
+    "cnvlib/segfilters.py::cn",
+    params=dict(segarr=_SEGT), returns=FunResT("SQUASH", "segarr"), requires=[],
+    ensures=[("levels_are_cn", "result == SQUASH(Vec(len(segarr.data), lambda k: segarr.data.cn[k]))")],
+    props=("C14",), domain="skip",
+    canaries=[("wrong_column", 'segarr["cn"]', 'segarr["probes"]')],
+)
